@@ -241,6 +241,75 @@ theorem lsn_sym_step_is_product_formula (n : Nat) (Tre Tim V : Nat → Nat → R
       apply List.sum_eq_zero; intro x hx; obtain ⟨e, _, rfl⟩ := List.mem_map.mp hx; simp [coeffOfKind]
     rw [z1 false, z2, zero_add, add_zero]
     apply congrArg; apply List.map_congr_left; intro i _; simp [coeffOfKind]
+/-- The imaginary (oriented) hopping part of the SYMMETRIC linear-swap-network step: in both networks
+(`offset=False` and `offset=True`) the smaller mode sits on the left qubit at every callback, and the `Ryxxy`
+coefficients add up to `Σ_{p<q} Im T_pq / 2` per network — every hopping term twice at half time. -/
+theorem lsn_sym_imaginary_part (n : Nat) (Tre Tim V : Nat → Nat → Rat) :
+    ((lsnSymStep n Tre Tim V).map (coeffOfKind 1)).sum
+      = ((allPairs n).map fun k => Tim k.1 k.2 / 2).sum + ((allPairs n).map fun k => Tim k.1 k.2 / 2).sum ∧
+    (∀ e ∈ lsnSymStep n Tre Tim V, e.1 = 1 → e.2.1 < e.2.2.1) := by
+  constructor
+  · have hg : ∀ p q : Nat, (fun p q : Nat => if p < q then Tim p q / 2 else Tim q p / 2) p q
+        = (fun p q : Nat => if p < q then Tim p q / 2 else Tim q p / 2) q p := by
+      intro p q
+      simp only
+      by_cases h1 : p < q
+      · have : ¬ q < p := by omega
+        simp [h1, this]
+      · by_cases h2 : q < p
+        · simp [h1, h2]
+        · have : p = q := by omega
+          subst this; simp
+    have hR : ((allPairs n).map fun k => (fun p q : Nat => if p < q then Tim p q / 2 else Tim q p / 2) k.1 k.2)
+        = (allPairs n).map fun k => Tim k.1 k.2 / 2 := by
+      apply List.map_congr_left
+      intro k hk
+      rw [mem_allPairs] at hk
+      simp [hk.1]
+    have s0 := sum_over_log n false _ hg
+    have s1 := sum_over_log n true _ hg
+    rw [hR] at s0 s1
+    unfold lsnSymStep
+    simp only [List.map_append, List.sum_append, sum_flatMap, List.map_map]
+    have z : (((List.range n).map ((coeffOfKind 1) ∘ fun i => ((3 : Nat), i, i, n - 1 - i, Tre i i))).sum) = 0 := by
+      apply List.sum_eq_zero; intro x hx; obtain ⟨i, _, rfl⟩ := List.mem_map.mp hx; simp [coeffOfKind]
+    rw [z, add_zero]
+    refine congrArg₂ (· + ·) ?_ ?_
+    · rw [← s0]; apply congrArg; apply List.map_congr_left; intro e he
+      have := swapNetwork_call_ascending n false e he
+      simp [coeffOfKind, this]
+    · rw [← s1]; apply congrArg; apply List.map_congr_left; intro e he
+      have := swapNetwork_call_ascending n true e he
+      simp [coeffOfKind, this]
+  · intro e he h1
+    unfold lsnSymStep at he
+    simp only [List.mem_append, List.mem_flatMap, List.mem_map, List.mem_range] at he
+    rcases he with (⟨c, hc, hce⟩ | ⟨i, _, rfl⟩) | ⟨c, hc, hce⟩
+    · have := swapNetwork_call_ascending n false c hc
+      simp only [List.mem_cons, List.not_mem_nil, or_false] at hce
+      rcases hce with rfl | rfl | rfl <;> simp_all
+    · simp at h1
+    · have := swapNetwork_call_ascending n true c hc
+      simp only [List.mem_cons, List.not_mem_nil, or_false] at hce
+      rcases hce with rfl | rfl | rfl <;> simp_all
+
+/-- final order for a step whose permutation is the reversal only when `rev` (LOW_RANK: `rev` = odd number of
+retained components): `finish` swaps back iff `n_steps` odd ∧ `rev` ∧ not omitted -/
+theorem final_order_low_rank (r : Nat → Rat) (order nSteps : Nat) (q : List Nat) (time : Rat)
+    (omitSwaps rev : Bool) :
+    let perm : List Nat → List Nat := if rev then reversal else id
+    let qf := (simulate perm r order nSteps q time).2
+    (if finishSwaps nSteps omitSwaps && rev then reversal qf else qf) =
+      if omitSwaps && rev && nSteps % 2 == 1 then q.reverse else q := by
+  cases rev
+  · have h : ∀ q : List Nat, id (id q) = q := fun _ => rfl
+    obtain ⟨_, _, c⟩ := simulateLoop_spec id h r order (time / nSteps) nSteps q
+    simp only [simulate, Bool.false_eq_true, if_false, c, iterate_involutive id h, finishSwaps]
+    rcases Nat.mod_two_eq_zero_or_one nSteps with h2 | h2 <;> cases omitSwaps <;> simp [h2]
+  · have h : ∀ q, reversal (reversal q) = q := by intro q; simp [reversal]
+    obtain ⟨_, _, c⟩ := simulateLoop_spec reversal h r order (time / nSteps) nSteps q
+    simp only [simulate, if_true, c, iterate_involutive reversal h, finishSwaps]
+    rcases Nat.mod_two_eq_zero_or_one nSteps with h2 | h2 <;> cases omitSwaps <;> simp [h2, reversal]
 /-- The symmetric linear-swap-network step is a PALINDROME: its third part (the network with
 `offset=True` on the reversed qubits, gates in the order rot11, Ryxxy, Rxxyy) is exactly the first part
 read backwards — the same generator with the same coefficient for the same pair of modes on the same two
